@@ -197,11 +197,13 @@ var _ = reflect.TypeOf
 func init() {
 	handlers["comments"] = func(req json.RawMessage) (any, error) {
 		var in struct {
-			Cases []commentsCase `json:"cases"`
+			Cases     []commentsCase `json:"cases"`
+			Snapshots bool           `json:"snapshots"` // record the astdiff snapshots of every step
 		}
 		if err := json.Unmarshal(req, &in); err != nil {
 			return nil, err
 		}
+		patch.VerifSnapshots = in.Snapshots
 		out := make([]commentsResult, len(in.Cases))
 		parallel(len(in.Cases), func(i int) { out[i] = runCommentsCase(in.Cases[i]) })
 		return map[string]any{"results": out}, nil
